@@ -152,8 +152,12 @@ pub fn run(tier: &str) -> i32 {
     w.when = Some(vec![vec![un(vec![key("b")], UnOp::Exists, false)]]);
     progs.push(File { lets: vec![], rules: vec![w.clone(), rule("s", vec![vec![lp[0].clone()]]), rule("s", vec![vec![lp[9].clone()]]), rule("u", vec![vec![named("s")]])], default: vec![] });
     let docs: Vec<V> = docs_quick();
-    let djs: Vec<String> = docs.iter().map(|d| d.json()).collect();
-    let suites: Vec<Vec<usize>> = vec![vec![1], vec![0, 9], vec![2, 13, 20], vec![3, 8, 17, 25]];
+    let mut djs: Vec<String> = docs.iter().map(|d| d.json()).collect();
+    // numbers beyond i64 (floats in every loader) with type-sensitive rules
+    djs.push("{\"a\":9223372036854775808,\"b\":1}".to_string());
+    djs.push("{\"a\":[18446744073709551615,1],\"b\":1.0}".to_string());
+    progs.push(File { lets: vec![], rules: vec![rule("tf", vec![vec![un(vec![key("a")], UnOp::IsFloat, false), un(vec![key("a"), Part::All], UnOp::IsFloat, false).with_some(true)]]), rule("ti", vec![vec![un(vec![key("a")], UnOp::IsInt, false)]]), rule("tn", vec![vec![bin(vec![key("a")], BinOp::Lt, false, i(0)), bin(vec![key("a"), Part::All], BinOp::Lt, false, i(0)).with_some(true)]])], default: vec![] });
+    let suites: Vec<Vec<usize>> = vec![vec![1], vec![0, 9], vec![2, 13, 20], vec![3, 8, 17, 25], vec![djs.len() - 2, djs.len() - 1]];
     let fmts = ["plain", "plain-v", "json", "yaml", "junit"];
     let stv = [None, Some(St::Pass), Some(St::Fail), Some(St::Skip)];
     // enumerate states
